@@ -24,7 +24,7 @@ RULE = ("trees of lower-case .cmake files at depth 0..4 whose contents are gener
 ASSUMPTIONS = ["file names end in lower-case .cmake", "how inner path components are joined is not constrained, only their order"]
 BUDGET = {"quick": {"shards": 4, "examples": 120}, "thorough": {"shards": 16, "examples": 1500}}
 
-SEPS = [".", ".", "::", "/", "-", "->"]
+SEPS = [".", ".", "::", "/", "-", "->", "_"]
 HEADER_POOL = list("#*=-_~!&@^+:'\"`$%<>")
 
 
